@@ -174,6 +174,16 @@ uint8_t* vh_exact(const uint8_t* p, size_t n) {
   return q;
 }
 
+/* The same, starting k bytes into the block: the end still coincides with the end of the block (red zone), the start has
+ * the alignment the caller chose. malloc alone only ever yields 16-byte aligned starts. Free *base, not the result. */
+uint8_t* vh_exact_mis(const uint8_t* p, size_t n, unsigned k, void** base) {
+  uint8_t* q = malloc(n + k);
+  if (!q) vh_die("out of memory in vh_exact_mis(%zu)", n);
+  *base = q;
+  if (n) memcpy(q + k, p, n);
+  return q + k;
+}
+
 void vb_reserve(struct vh_buf* b, size_t extra) {
   if (b->n + extra <= b->cap) return;
   size_t nc = b->cap ? b->cap * 2 : 256;
